@@ -34,7 +34,7 @@ UserFromObs(o, c, now) ==
   [ex |-> o.ex, pw |-> o.pw, conf |-> o.conf, cTok |-> o.cTok, rTok |-> o.rTok,
    rExp |-> IF o.rTok = 0 THEN NEVER ELSE IF o.rLeft < 0 THEN now - 1 ELSE now + o.rLeft,
    att |-> o.att,
-   last |-> IF o.winLeft < 0 THEN NEVER ELSE now - (c.lockWindow - o.winLeft),
+   last |-> IF o.winLeft < 0 THEN NEVER ELSE now - (Thr(c.lockWindow) - o.winLeft),
    lockedUntil |-> IF o.lockLeft < 0 THEN NEVER ELSE now + o.lockLeft,
    otps |-> ToSet(o.otps), rcg |-> o.rcg, rcLeft |-> ToSet(o.rcLeft),
    totp |-> o.totp, totpLast |-> o.totpLast, sms |-> o.sms, arb |-> ToSet(o.arb)]
@@ -47,8 +47,8 @@ SessFromObs(o, c, now) ==
    oState |-> o.oState, oHas |-> o.oHas, oRm |-> o.oRm, oRedir |-> o.oRedir,
    tfaTok |-> o.tfaTok, tfaAuthed |-> o.tfaAuthed,
    lastAct |-> IF o.expLeft = -2 THEN NEVER
-               ELSE IF o.expLeft < 0 THEN now - c.expireAfter - 1
-               ELSE now - (c.expireAfter - o.expLeft),
+               ELSE IF o.expLeft < 0 THEN now - Thr(c.expireAfter) - 1
+               ELSE now - (Thr(c.expireAfter) - o.expLeft),
    app1 |-> o.app1, app2 |-> o.app2]
 
 FromObs(o, c, iss, scp, spent) ==
@@ -68,7 +68,7 @@ Clip(x) == IF x < -1 THEN -1 ELSE x
 UserObs(u, c, now) ==
   [ex |-> u.ex, pw |-> u.pw, conf |-> u.conf, cTok |-> u.cTok, rTok |-> u.rTok,
    rLeft |-> IF u.rTok = 0 THEN -1 ELSE Clip(u.rExp - now),
-   att |-> u.att, winLeft |-> Clip(c.lockWindow - (now - u.last)),
+   att |-> u.att, winLeft |-> Clip(Thr(c.lockWindow) - (now - u.last)),
    lockLeft |-> Clip(u.lockedUntil - now),
    otps |-> u.otps, rcg |-> u.rcg, rcLeft |-> u.rcLeft, totp |-> u.totp, totpLast |-> u.totpLast,
    sms |-> u.sms, arb |-> u.arb]
@@ -79,7 +79,7 @@ SessObs(s, c, now) ==
    smsFresh |-> IF s.smsLast = NEVER THEN -2 ELSE IF now - s.smsLast < 1 THEN 1 ELSE 0,
    totpSetup |-> s.totpSetup, smsNum |-> s.smsNum, oState |-> s.oState, oHas |-> s.oHas,
    oRm |-> s.oRm, oRedir |-> s.oRedir, tfaTok |-> s.tfaTok, tfaAuthed |-> s.tfaAuthed,
-   expLeft |-> IF s.lastAct = NEVER THEN -2 ELSE Clip(c.expireAfter - (now - s.lastAct)),
+   expLeft |-> IF s.lastAct = NEVER THEN -2 ELSE Clip(Thr(c.expireAfter) - (now - s.lastAct)),
    app1 |-> s.app1, app2 |-> s.app2]
 
 UserFields == {"ex", "pw", "conf", "cTok", "rTok", "rLeft", "att", "winLeft", "lockLeft",
